@@ -122,6 +122,18 @@ func (stageComp) Corpus() [][]string {
 		// the stray cleaner and a stale partial of a NEW version of a name whose earlier delivery is known only from the log
 		{"base ?", "oldlog w.nc - b164.109.153.172.239.246.250.111 8 -260002", "recover 0", "prepare w.nc 2 14", "recv w.nc - - 2 b90.244 0 1 90 15",
 			"chtime w.nc part -400000", "observe", "cleanstrays 16", "observe", "scan"},
+		// fixed defect "the stray cleaner removed the partial of a retransmission of a file that failed validation": a
+		// file fails validation (bytes overwritten in staging / wrong announced hash), is sent again with the same hash,
+		// the sender stalls for more than a day and the cleaner runs: the partial must stay (that version was never
+		// validated, delivered or logged), the rest arrives and the file is delivered
+		{"base ?", "recover 0", "prepare x.y 3 0", "recv x.y - - 3 b100.62.16 0 2 100.62 0", "recv x.y - - 3 b100.62.16 2 3 16 0", "corrupt x.y full 0 253", "settle 0",
+			"status x.y 0 0", "prepare x.y 3 0", "recv x.y - - 3 b100.62.16 0 2 100.62 0", "chtime x.y part -90000", "observe", "cleanstrays 1", "observe", "scan",
+			"received x.y - - b100.62.16 0 0 2 1", "recv x.y - - 3 b100.62.16 2 3 16 1", "settle 1", "observe", "status x.y 0 1"},
+		{"base ?", "recover 0", "prepare f 4 0", "recv f - - 4 b9.9.9.9 0 4 1.2.3.4 0", "settle 0", "status f 0 0", "prepare f 4 0", "recv f - - 4 b9.9.9.9 0 2 1.2 0",
+			"chtime f part -400000", "observe", "cleanstrays 1", "observe", "scan", "status f 0 1"},
+		// ... beside a validated copy of an OLDER version that is held for its predecessor (a `.wait` of another hash is no excuse)
+		{"base ?", "recover 0", "prepare b 2 0", "recv b - a 2 b1.2 0 2 1.2 0", "settle 0", "status b 0 0", "prepare b 3 0", "recv b - a 3 b7.7.7 0 3 4.5.6 0", "settle 0",
+			"status b 0 0", "prepare b 3 0", "recv b - a 3 b7.7.7 0 2 4.5 0", "chtime b part -200000", "observe", "cleanstrays 1", "observe", "scan"},
 		// a failed new version of such a name polled with a fresh and then with an old reference time
 		{"base ?", "oldlog y/z - b89 1 -260001", "recover 0", "prepare y/z 5 12", "recv y/z - - 5 b246.209.114.226.173 0 5 246.209.114.226.173 13",
 			"corrupt y/z full 0 252", "settle 15", "status y/z 0 16", "status y/z -261001 18", "status y/z 0 19"},
@@ -162,6 +174,20 @@ func (stageComp) Corpus() [][]string {
 		{"base ?", "recover 0", "prepare a 2 0", "recv a - - 2 b1.2 0 2 1.2 0", "prepare a 2 0", "raceproc a 0 ;; a - - 2 b7.8 0 2 7.8 0", "observe", "settle 0", "observe", "status a 0 0"},
 		// a part of a new version arrives while the old one is being put away (logged, not yet moved)
 		{"base ?", "recover 0", "prepare a 2 0", "recv a - - 2 b1.2 0 2 1.2 0", "process a 0", "prepare a 3 0", "racefin a 0 ;; a - - 3 b7.8.9 0 2 7.8 0", "observe", "recv a - - 3 b7.8.9 2 3 9 0", "settle 0", "observe", "status a 0 0"},
+		// the window between the finalize handler's decision (cached state read WITHOUT the file lock, isFileReady) and
+		// finalize's locked region: the handler is held right before finalize() for version 1 of "a" while version 2 of the
+		// same name is received completely and validated (its .wait replaces version 1's); the stale item must be ignored
+		// by finalize's re-check of state AND hash under the lock, version 2 is delivered under its own record
+		// (seed C01d: hash compared only in the handler's unlocked pre-check -> v1's record, v2's bytes)
+		{"base ?", "recover 0", "prepare a 2 0", "recv a - - 2 b1.2 0 2 1.2 0", "process a 0", "finhold a 0", "prepare a 2 0", "recv a - - 2 b7.8 0 2 7.8 0",
+			"process a 0", "observe", "finrelease a 0", "observe", "settle 0", "observe", "status a 0 0"},
+		// the same with the pipeline run by `settle` while the handler is held (only validators run), and a crash image
+		// taken inside the released finalize
+		{"base ?", "recover 0", "prepare a 2 0", "recv a - - 2 b1.2 0 2 1.2 0", "settle 0", "prepare a 3 0", "recv a - - 3 b4.5.6 0 3 4.5.6 0", "process a 0",
+			"finhold a 0", "prepare a 3 0", "recv a - - 3 b7.8.9 0 3 7.8.9 0", "settle 0", "observe", "finh a 0", "cut 1 finrelease a 0", "observe", "recover 0", "settle 0", "observe", "status a 0 0"},
+		// held while its predecessor is delivered, a duplicate of the held version arrives, and the cleaners run
+		{"base ?", "recover 0", "prepare p 1 0", "recv p - - 1 b5 0 1 5 0", "settle 0", "prepare b 2 0", "recv b - p 2 b1.2 0 2 1.2 0", "process b 0", "finhold b 0",
+			"prepare b 2 0", "recv b - p 2 b1.2 0 2 1.2 0", "cleanwaiting", "cleanstrays 0", "settle 0", "observe", "finrelease b 0", "observe", "finrelease b 0", "settle 0", "observe", "status b 0 0"},
 	}
 }
 
@@ -178,6 +204,10 @@ func (stageComp) Generate(r *Rand, tier string, n int) [][]string {
 		}
 		if i%10 == 7 {
 			cases = append(cases, genStageDupCrash(r))
+			continue
+		}
+		if i%10 == 6 {
+			cases = append(cases, genStageWindow(r))
 			continue
 		}
 		if i%2 == 1 {
@@ -539,8 +569,18 @@ func genStageScenario(r *Rand) []string {
 		// left-overs of every age, then the stray cleaner
 		for _, f := range files {
 			if r.Chance(0.6) {
+				failed := r.Chance(0.35)
+				if failed {
+					// the file is sent (again) and fails validation (staged bytes overwritten): cache state failed,
+					// unless that version is known as delivered; its retransmission is the left-over
+					ops = append(ops, fmt.Sprintf("prepare %s %d 0", esc(f.name), len(f.body)))
+					for k := 0; k+1 < len(f.cuts); k++ {
+						ops = append(ops, f.recvOp(k))
+					}
+					ops = append(ops, fmt.Sprintf("corrupt %s full 0 %d", esc(f.name), r.Range(251, 255)), "settle 0")
+				}
 				ops = append(ops, fmt.Sprintf("prepare %s %d 0", esc(f.name), len(f.body)))
-				if r.Chance(0.5) {
+				if failed || r.Chance(0.5) {
 					ops = append(ops, f.recvOp(0))
 				}
 				if r.Chance(0.3) {
@@ -636,6 +676,184 @@ func genStageRace(r *Rand) []string {
 		ops = append(ops, fmt.Sprintf("racefin %s 0 ;; %s", esc(f.name), recvArgs(g, m-1)), "observe")
 	}
 	ops = append(ops, "settle 0", "observe", "scan", fmt.Sprintf("status %s 0 0", esc(f.name)))
+	if r.Chance(0.3) {
+		ops = append(ops, "crash", "recover 0", "settle 0", "observe", fmt.Sprintf("status %s 0 0", esc(f.name)))
+	}
+	return ops
+}
+
+// genStageWindow: the window between the finalize handler's decision phase (cached state read WITHOUT the file lock,
+// isFileReady with its possible scan of the receive log) and finalize's locked region. The handler is held right
+// before finalize() for one item (`finhold`) while other operations run: a NEWER VERSION of the same name is
+// received completely and validated (the main case: finalize must re-check state AND hash under the lock), a
+// duplicate of the held version arrives, a successor / a new version of the predecessor arrives and is validated,
+// the cleaners run, the sender asks, the receiver dies and restarts; then the handler goes on (`finrelease`, also as a
+// crash image `cut k finrelease`). Items that the decision phase skips or parks (answer `ok`, nothing held) are
+// generated too.
+func genStageWindow(r *Rand) []string {
+	ops := []string{"base ?", "recover 0"}
+	names := []string{"a", "d/b", "x.y", "ab"}
+	r.Shuffle(len(names), func(i, j int) { names[i], names[j] = names[j], names[i] })
+	sendAll := func(f *sfile) {
+		ops = append(ops, fmt.Sprintf("prepare %s %d 0", esc(f.name), len(f.body)))
+		for k := 0; k+1 < len(f.cuts); k++ {
+			ops = append(ops, f.recvOp(k))
+		}
+	}
+	target := func(f *sfile) string {
+		if f.renamed != "" {
+			return f.renamed
+		}
+		return f.name
+	}
+	var pred *sfile
+	prev := ""
+	switch r.Intn(5) {
+	case 0:
+		// a predecessor that was delivered before (the held file is ready because of it)
+		pred = genFile(r, names[1], "")
+		sendAll(pred)
+		ops = append(ops, "settle 0")
+		if r.Chance(0.3) {
+			ops = append(ops, "consume "+esc(target(pred)))
+		}
+		prev = pred.name
+	case 1:
+		// a predecessor that never arrives: the decision phase parks the file (nothing is held)
+		prev = "ghost"
+	}
+	f := genFile(r, names[0], prev)
+	if r.Chance(0.3) {
+		// an older version of the name was delivered before
+		f0 := genFile(r, f.name, prev)
+		f0.renamed = f.renamed
+		sendAll(f0)
+		ops = append(ops, "settle 0")
+	}
+	sendAll(f)
+	ops = append(ops, fmt.Sprintf("process %s 0", esc(f.name)))
+	if r.Chance(0.1) {
+		// the item is stale already when the handler takes it: a newer version is complete (state received)
+		g := genFile(r, f.name, prev)
+		g.renamed = f.renamed
+		sendAll(g)
+	}
+	ops = append(ops, fmt.Sprintf("finhold %s 0", esc(f.name)))
+	if r.Chance(0.2) {
+		ops = append(ops, "observe")
+	}
+	cur := f // the version of the name that is current in the cache
+	nmean := r.Range(1, 3)
+	for j := 0; j < nmean; j++ {
+		switch r.Intn(9) {
+		case 0, 1, 2:
+			// a NEWER VERSION of the held name, received completely and validated
+			g := genFile(r, f.name, prev)
+			g.renamed = f.renamed
+			if r.Chance(0.2) {
+				g.renamed = "r/other.x"
+			}
+			if r.Chance(0.15) {
+				g.hash = "xbad" // ... or failing its validation
+			}
+			sendAll(g)
+			switch r.Intn(4) {
+			case 0:
+				ops = append(ops, "settle 0")
+			case 1: // complete, not yet validated
+			default:
+				ops = append(ops, fmt.Sprintf("process %s 0", esc(g.name)))
+			}
+			cur = g
+		case 3:
+			// a duplicate of the current version (a lost acknowledgement)
+			sendAll(cur)
+			if r.Chance(0.5) {
+				ops = append(ops, "settle 0")
+			}
+		case 4:
+			// only a part of a newer version
+			g := genFile(r, f.name, prev)
+			g.renamed = f.renamed
+			ops = append(ops, fmt.Sprintf("prepare %s %d 0", esc(g.name), len(g.body)), g.recvOp(0))
+			if len(g.cuts) > 2 {
+				cur = nil
+			} else {
+				cur = g
+			}
+			if cur == nil {
+				cur = f
+			}
+		case 5:
+			// a successor of the held file arrives and is validated (it queues up behind the held handler), or a new
+			// version of the predecessor
+			var h *sfile
+			if pred != nil && r.Chance(0.5) {
+				h = genFile(r, pred.name, "")
+				h.renamed = pred.renamed
+			} else {
+				h = genFile(r, names[2], f.name)
+			}
+			sendAll(h)
+			ops = append(ops, "settle 0")
+		case 6:
+			// the cleaners
+			if r.Chance(0.5) {
+				ops = append(ops, "cleanwaiting")
+			}
+			if r.Chance(0.5) {
+				g := genFile(r, f.name, prev)
+				ops = append(ops, fmt.Sprintf("prepare %s %d 0", esc(g.name), len(g.body)))
+				if len(g.cuts) > 2 {
+					ops = append(ops, g.recvOp(0))
+				}
+				ops = append(ops, fmt.Sprintf("chtime %s part %d", esc(f.name), []int{-3600, -90000, -400000}[r.Intn(3)]))
+			}
+			ops = append(ops, "cleanstrays 0")
+		case 7:
+			// the sender asks
+			ops = append(ops, fmt.Sprintf("status %s 0 0", esc(f.name)),
+				fmt.Sprintf("received %s %s %s %s 0 %d %d 0", esc(f.name), esc(f.renamed), esc(f.prev), esc(f.hash), f.cuts[0], f.cuts[1]))
+			if r.Chance(0.5) {
+				ops = append(ops, "scan")
+			}
+		case 8:
+			// things that cannot happen while the single handler is held are refused the same way by model and code
+			ops = append(ops, fmt.Sprintf("finh %s 0", esc(f.name)))
+			if r.Chance(0.3) {
+				ops = append(ops, "firetimer "+esc(f.name))
+			}
+		}
+		if r.Chance(0.3) {
+			ops = append(ops, "observe")
+		}
+	}
+	switch r.Intn(8) {
+	case 0:
+		// the receiver dies while the handler is held
+		ops = append(ops, "crash", "observe", "recover 0", fmt.Sprintf("finrelease %s 0", esc(f.name)))
+	case 1:
+		// ... or inside the finalize that follows
+		ops = append(ops, fmt.Sprintf("cut %d finrelease %s 0", r.Range(0, 4), esc(f.name)), "observe", "recover 0")
+	default:
+		ops = append(ops, fmt.Sprintf("finrelease %s 0", esc(f.name)))
+	}
+	ops = append(ops, "observe")
+	if r.Chance(0.3) {
+		// a second window, for whatever is at the head of the queue now (usually the newer version)
+		ops = append(ops, fmt.Sprintf("finhold %s 0", esc(f.name)))
+		if r.Chance(0.5) {
+			g := genFile(r, f.name, prev)
+			g.renamed = f.renamed
+			sendAll(g)
+			ops = append(ops, "settle 0")
+		}
+		ops = append(ops, fmt.Sprintf("finrelease %s 0", esc(f.name)), "observe")
+	}
+	ops = append(ops, "settle 0", "observe", "scan", fmt.Sprintf("status %s 0 0", esc(f.name)))
+	if prev == "ghost" && r.Chance(0.5) {
+		ops = append(ops, "firetimer "+esc(f.name), "settle 0", "observe")
+	}
 	if r.Chance(0.3) {
 		ops = append(ops, "crash", "recover 0", "settle 0", "observe", fmt.Sprintf("status %s 0 0", esc(f.name)))
 	}
